@@ -37,6 +37,14 @@ func RunCase(in []string) (out []string) {
 				return out
 			}
 		}
+	case strings.HasPrefix(in[0], "ASY:"):
+		d, _ := strconv.Atoi(in[0][4:])
+		for try := 0; ; try++ {
+			out = RunAsync(d, in[1:], 5*time.Second)
+			if try >= 3 || len(out) == 0 || out[len(out)-1] != "SETUPFAIL" {
+				return out
+			}
+		}
 	case in[0] == "PRE":
 		return RunPreface(in[1:])
 	}
@@ -67,6 +75,27 @@ func Main(profile string) {
 			}
 		}
 	}
+	nAsy := 0
+	if profile == "c08" {
+		nAsy = 16
+		if cfg.Thorough() {
+			nAsy = 150
+		}
+	}
+	genAsy := func() {
+		// concurrent direct / queued / credit writes to a slow destination
+		for i := 0; i < nAsy; i++ {
+			r := rng.Fork()
+			ls := GenAsync(func(xs ...int) int { return xs[r.Intn(len(xs))] }, r.Chance, func(n int) string { return hx.Hex(r.Bytes(n)) })
+			emit("asy", append([]string{fmt.Sprintf("ASY:%d", []int{9, 9, 5, 64}[r.Intn(4)])}, ls...))
+		}
+	}
+	if cfg.Extra == "asyonly" {
+		// side run under the Go race detector (meta race_quick_extra): an unlocked write to the
+		// shared destination Framer is a data race
+		genAsy()
+		return
+	}
 	nStep, nBig, nE2E, nPre := 900, 25, 60, 60
 	if cfg.Thorough() {
 		nStep, nBig, nE2E, nPre = 25000, 600, 1500, 1500
@@ -79,6 +108,18 @@ func Main(profile string) {
 		r := rng.Fork()
 		emit("big", append([]string{"STEP"}, Gen(r, profile, r.Range(4, 12), true, false)...))
 	}
+	if profile == "c09" {
+		nReg := 80
+		if cfg.Thorough() {
+			nReg = 1800
+		}
+		for i := 0; i < nReg; i++ {
+			r := rng.Fork()
+			reg := "bbbabbbc"[i%8] // the a/c regimes carry one 65535-octet frame each
+			emit("reg", append([]string{"STEP"}, GenRegime(r, reg)...))
+			cfg.Count("regime=" + string(reg))
+		}
+	}
 	for i := 0; i < nE2E; i++ {
 		r := rng.Fork()
 		d := []int{0, 1, 2, 3, 5, 9, 64}[r.Intn(7)]
@@ -88,6 +129,7 @@ func Main(profile string) {
 		}
 		emit("e2e", append([]string{fmt.Sprintf("%s:%d", mode, d)}, Gen(r, profile, r.Range(4, 24), i%10 == 9, true)...))
 	}
+	genAsy()
 	if profile == "c08" {
 		for i := 0; i < nPre; i++ {
 			r := rng.Fork()
